@@ -151,11 +151,14 @@ def run(ctx):
             jobs.append(("avl", p, group, exe))
     # ---- M3: run on the real code
     traces = []
+    hung = False
     for kind, sp, group, ex in jobs:
         tp = sp[:-7] + ".ndjson"
-        rc, out, to = run_driver([ex, sp, tp], timeout=300)
+        # (a driver that hangs is given up after 120 s, twice; once a hang is established the remaining files get 30 s and one attempt)
+        rc, out, to = run_driver([ex, sp, tp], timeout=120 if not hung else 30)
         if to or rc != 0:
-            rc2, out2, to2 = run_driver([ex, sp, tp], timeout=300)
+            rc2, out2, to2 = (rc, out, to) if hung else run_driver([ex, sp, tp], timeout=120)
+            hung = hung or bool(to2)
             if to2 or rc2 != 0:
                 what = "driver %s on a legal operation sequence (%s): %s" % (
                     "did not terminate" if to2 else "crashed rc=%d" % rc2, kind, (out2 or "")[-1500:])
